@@ -368,7 +368,20 @@ impl Debug for FixedSchema {
 }
 
 impl FixedSchema {
-    fn serialize_to_map<S>(&self, mut map: S::SerializeMap) -> Result<S::SerializeMap, S::Error>
+    fn serialize_to_map<S>(&self, map: S::SerializeMap) -> Result<S::SerializeMap, S::Error>
+    where
+        S: Serializer,
+    {
+        self.serialize_to_map_without::<S>(map, &[])
+    }
+
+    /// Like `serialize_to_map`, leaving out the custom attributes with the given keys (the ones the
+    /// logical type around this fixed writes itself: a key must not appear twice in a JSON object).
+    fn serialize_to_map_without<S>(
+        &self,
+        mut map: S::SerializeMap,
+        without: &[&str],
+    ) -> Result<S::SerializeMap, S::Error>
     where
         S: Serializer,
     {
@@ -387,7 +400,9 @@ impl FixedSchema {
         }
 
         for attr in &self.attributes {
-            map.serialize_entry(attr.0, attr.1)?;
+            if !without.contains(&attr.0.as_str()) {
+                map.serialize_entry(attr.0, attr.1)?;
+            }
         }
 
         Ok(map)
@@ -962,7 +977,8 @@ impl Serialize for Schema {
                 let mut map = serializer.serialize_map(None)?;
                 match inner {
                     InnerDecimalSchema::Fixed(fixed_schema) => {
-                        map = fixed_schema.serialize_to_map::<S>(map)?;
+                        map = fixed_schema
+                            .serialize_to_map_without::<S>(map, &["scale", "precision"])?;
                     }
                     InnerDecimalSchema::Bytes => {
                         map.serialize_entry("type", "bytes")?;
